@@ -56,7 +56,16 @@ var c39Classes = []string{
 	// ECDSA
 	"ec-point-other-outerA", "ec-point-other-outerB", "ec-keytype-vs-curve", "ec-curvefield-vs-point",
 	"ec-d-zero", "ec-d-eq-n", "ec-d-plus-n", "ec-d-negative", "ec-d-n-minus-1", "ec-d-n-minus-2", "ec-point-compressed", "ec-point-infinity", "ec-point-offcurve", "ec-outer-swapped", "ec-outer-other-curve",
+	// ECDSA scalar range, per curve: the stored point is D*G, so only the range rule [1,n-1] can reject
+	"ec256-d-plus-n-below-p", "ec384-d-plus-n-below-p", "ec521-d-plus-n-below-p",
+	"ec256-d-eq-n", "ec384-d-eq-n", "ec521-d-eq-n",
+	"ec256-d-n-plus-1", "ec384-d-n-plus-1", "ec521-d-n-plus-1",
+	"ec256-d-p-minus-1", "ec384-d-p-minus-1", "ec521-d-p-minus-1",
+	"ec256-d-zero", "ec384-d-zero", "ec521-d-zero",
+	"ec256-d-one", "ec384-d-one", "ec521-d-one",
+	"ec256-d-leading-zeros", "ec384-d-leading-zeros", "ec521-d-leading-zeros",
 	// RSA
+	"rsa-p-foreign-crt-consistent", "rsa-d-plus-lcm", "rsa-e-one-d-one", "rsa-e-even-outer-too",
 	"rsa-n-not-pq", "rsa-n-not-pq-outer-orig", "rsa-d-wrong", "rsa-d-plus-lambda", "rsa-e-mismatch", "rsa-pq-swapped", "rsa-iqmp-garbage", "rsa-p-foreign",
 	"rsa-outer-swapped", "rsa-e-bad", "rsa-negative", "rsa-p-one",
 	// container level
@@ -95,6 +104,9 @@ func ecKind(c elliptic.Curve) string {
 	}
 	return "ecdsa521"
 }
+
+// scalarRangeClasses are gated one by one.
+var scalarRangeClasses = []string{"d-plus-n-below-p", "d-eq-n", "d-n-plus-1", "d-p-minus-1", "d-zero", "d-one", "d-leading-zeros"}
 
 var anyKinds = []string{"ed25519", "ecdsa256", "ecdsa384", "ecdsa521", "rsa"}
 
@@ -285,7 +297,94 @@ func buildClass(cls string, r *rand.Rand, block int) *built {
 		b.what = "outer public key on another curve"
 		return finish(ps, fm.BlobEC(fm.CurveName(other), fm.ECPoint(other, B.X, B.Y)))
 
+	case "ec256-d-plus-n-below-p", "ec384-d-plus-n-below-p", "ec521-d-plus-n-below-p",
+		"ec256-d-eq-n", "ec384-d-eq-n", "ec521-d-eq-n", "ec256-d-n-plus-1", "ec384-d-n-plus-1", "ec521-d-n-plus-1",
+		"ec256-d-p-minus-1", "ec384-d-p-minus-1", "ec521-d-p-minus-1", "ec256-d-zero", "ec384-d-zero", "ec521-d-zero",
+		"ec256-d-one", "ec384-d-one", "ec521-d-one", "ec256-d-leading-zeros", "ec384-d-leading-zeros", "ec521-d-leading-zeros":
+		c := map[string]elliptic.Curve{"ec256": elliptic.P256(), "ec384": elliptic.P384(), "ec521": elliptic.P521()}[cls[:5]]
+		N, P := c.Params().N, c.Params().P
+		b.keyType = ecKind(c)
+		one := big.NewInt(1)
+		gap := new(big.Int).Sub(P, N) // N < P on all three curves
+		var D, eff *big.Int           // stored scalar; scalar whose multiple of G is stored as the point
+		var body []byte
+		switch cls[6:] {
+		case "d-plus-n-below-p":
+			// d in [1, P-N-1]  =>  N < D = d+N < P
+			d := new(big.Int).SetBytes(mon.Bytes(r, (gap.BitLen()+7)/8+8))
+			d.Mod(d, new(big.Int).Sub(gap, one))
+			d.Add(d, one)
+			switch r.IntN(4) {
+			case 0:
+				d = big.NewInt(1 + int64(r.IntN(1000)))
+			case 1:
+				d = new(big.Int).Sub(gap, big.NewInt(1+int64(r.IntN(3)))) // D = P-1 .. P-3
+			}
+			D, eff = new(big.Int).Add(d, N), d
+			b.what = "D = d+N with N < D < P; point and outer key = d*G (= D*G)"
+		case "d-eq-n":
+			D, eff = new(big.Int).Set(N), one
+			b.what = "D = N (D*G is the point at infinity, G stored)"
+		case "d-n-plus-1":
+			D, eff = new(big.Int).Add(N, one), one
+			b.what = "D = N+1; point and outer key = G"
+		case "d-p-minus-1":
+			D = new(big.Int).Sub(P, one)
+			eff = new(big.Int).Sub(D, N)
+			b.what = "D = P-1; point and outer key = (P-1-N)*G"
+		case "d-zero":
+			D, eff = new(big.Int), one
+			b.what = "D = 0 (G stored)"
+		case "d-one":
+			D, eff = big.NewInt(1), one
+			b.what = "D = 1; point and outer key = G (a valid, if silly, key; OpenSSH refuses small scalars)"
+		default:
+			A := ecKey(r, c)
+			D, eff = A.D, A.D
+			body = append(make([]byte, 1+r.IntN(4)), fm.MpintBody(A.D)...)
+			b.what = "valid d written as a non-minimal mpint (leading zero octets)"
+		}
+		pubk := ecFromD(c, eff)
+		ps, outer := std(pubk)
+		ps.EC.D = D
+		ps.EC.DBody = body
+		return finish(ps, outer)
+
 	// ---- RSA ----
+	case "rsa-p-foreign-crt-consistent":
+		A, B := rsaPair(r)
+		b.keyType = "rsa"
+		b.expect, b.vkey = expMustReject, "openssh-inconsistent-key-accepted:rsa-n-not-pq"
+		ps, outer := std(A)
+		ps.RSA.P = new(big.Int).Set(B.Primes[0])
+		ps.RSA.Iqmp = new(big.Int).ModInverse(ps.RSA.Q, ps.RSA.P)
+		b.what = "p taken from another key with iqmp recomputed for it (n != p*q, CRT values consistent among themselves)"
+		return finish(ps, outer)
+	case "rsa-d-plus-lcm":
+		A, _ := rsaPair(r)
+		b.keyType = "rsa"
+		ps, outer := std(A)
+		p1 := new(big.Int).Sub(A.Primes[0], big.NewInt(1))
+		q1 := new(big.Int).Sub(A.Primes[1], big.NewInt(1))
+		l := new(big.Int).Div(new(big.Int).Mul(p1, q1), new(big.Int).GCD(nil, nil, p1, q1))
+		ps.RSA.D = new(big.Int).Add(A.D, new(big.Int).Mul(l, big.NewInt(1+int64(r.IntN(3)))))
+		b.what = "d + k*lcm(p-1,q-1): an equivalent private exponent, possibly >= n"
+		return finish(ps, outer)
+	case "rsa-e-one-d-one":
+		A, _ := rsaPair(r)
+		b.keyType = "rsa"
+		ps, _ := std(A)
+		ps.RSA.E, ps.RSA.D = big.NewInt(1), big.NewInt(1)
+		b.what = "e = d = 1 in the private section and the outer key (arithmetically self-consistent; only the exponent rule can reject)"
+		return finish(ps, fm.BlobRSA(big.NewInt(1), A.N))
+	case "rsa-e-even-outer-too":
+		A, _ := rsaPair(r)
+		b.keyType = "rsa"
+		ps, _ := std(A)
+		e2 := big.NewInt(mon.Pick(r, []int64{2, 4, 65536, 65538}))
+		ps.RSA.E = e2
+		b.what = "even public exponent in the private section and the outer key"
+		return finish(ps, fm.BlobRSA(e2, A.N))
 	case "rsa-n-not-pq", "rsa-n-not-pq-outer-orig", "rsa-p-foreign":
 		A, B := rsaPair(r)
 		b.keyType = "rsa"
